@@ -218,8 +218,10 @@ def outcome_on_path(body, du, path, call_bid):
             val = True
         elif nxt in zeros:
             val = False
+        elif nxt == t.get("otherwise") and bool(zeros) != bool(ones):
+            val = bool(zeros)      # the otherwise edge of a bool switch that lists only 0 is the `true` edge, and vice versa
         else:
-            val = not zeros if ones == [] and zeros else (True if zeros else False)   # otherwise edge
+            return None
         return (not val) if o[1] else val
     return None
 
